@@ -44,6 +44,8 @@ pub struct Reference {
     /// names of the synthetic probe contents in the quiescent pass (first reference only, and only
     /// when the workload has a NameBurst)
     pub probe_names: Vec<String>,
+    /// one line per stock dialect translator: hash of the text it renders, or `panic`
+    pub dialects: Vec<String>,
 }
 
 fn probe_name(v: u64) -> String {
@@ -174,6 +176,27 @@ fn render_sim(r: &Relation) -> String {
     ast::Query::from(RelationWithTranslator(r, SimTranslator::default())).to_string()
 }
 
+/// The relation through every stock dialect translator: rendering is a function of (relation,
+/// translator) for each of them. A translator that does not support a construct panics; that
+/// outcome is part of the function too.
+fn render_dialects(r: &Relation) -> Vec<String> {
+    use qrlew::dialect_translation::{bigquery::BigQueryTranslator, databricks::DatabricksTranslator, hive::HiveTranslator, mssql::MsSqlTranslator, mysql::MySqlTranslator, redshiftsql::RedshiftSqlTranslator};
+    fn one<T: qrlew::dialect_translation::RelationToQueryTranslator>(name: &str, r: &Relation, t: T) -> String {
+        match std::panic::catch_unwind(std::panic::AssertUnwindSafe(|| ast::Query::from(RelationWithTranslator(r, t)).to_string())) {
+            Ok(text) => format!("{}:{:016x}:{}:{:016x}", name, hash64(&canonicalise(&text)), text.len(), hash64(&text)),
+            Err(_) => format!("{}:panic", name),
+        }
+    }
+    vec![
+        one("bigquery", r, BigQueryTranslator),
+        one("mssql", r, MsSqlTranslator),
+        one("mysql", r, MySqlTranslator),
+        one("hive", r, HiveTranslator),
+        one("databricks", r, DatabricksTranslator),
+        one("redshift", r, RedshiftSqlTranslator),
+    ]
+}
+
 fn hash64(s: &str) -> u64 {
     let mut h: u64 = 0xcbf29ce484222325;
     for b in s.bytes() {
@@ -290,7 +313,11 @@ fn exec_op(ctx: &Arc<Ctx>, who: &str, op: &Op) {
             if let Some(r) = &ctx.refs[*qi].relation {
                 let a = ast::Query::from(r).to_string();
                 let b = ast::Query::from(r).to_string();
-                event(ctx, format!("{} render q{} h={:016x}", who, qi, hash64(&canonicalise(&a))));
+                let d = render_dialects(r);
+                // (events carry the hashes of the texts with generated names made canonical, as for
+                // the stock rendering: the random_ids finding changes names, and names only)
+                let canon = |v: &Vec<String>| -> Vec<String> { v.iter().map(|x| x.rsplitn(2, ':').last().unwrap_or("").to_string()).collect() };
+                event(ctx, format!("{} render q{} h={:016x} d={:016x}", who, qi, hash64(&canonicalise(&a)), hash64(&canon(&d).join("|"))));
                 if a != b || a != ctx.refs[*qi].c.sql {
                     violation(
                         ctx,
@@ -298,6 +325,19 @@ fn exec_op(ctx: &Arc<Ctx>, who: &str, op: &Op) {
                         "unclassified",
                         format!("{}: rendering the relation of `{}` twice gives different text (or differs from the reference rendering)", who, ctx.wl.queries[*qi]),
                         json!({"query": ctx.wl.queries[*qi], "diff": first_diff(&a, &b), "vs_reference": first_diff(&a, &ctx.refs[*qi].c.sql)}),
+                    );
+                }
+                // ... and so through every stock dialect translator
+                probe(ctx, "dialect_renderings_compared");
+                let differs = if ctx.refs[*qi].has_random { canon(&d) != canon(&ctx.refs[*qi].dialects) } else { d != ctx.refs[*qi].dialects };
+                if differs {
+                    let which: Vec<String> = d.iter().zip(ctx.refs[*qi].dialects.iter()).filter(|(x, y)| x != y).map(|(x, y)| format!("{} vs reference {}", x, y)).collect();
+                    violation(
+                        ctx,
+                        "render_not_stable",
+                        "unclassified",
+                        format!("{}: rendering the relation of `{}` through a dialect translator differs from the rendering of the quiescent pass", who, ctx.wl.queries[*qi]),
+                        json!({"query": ctx.wl.queries[*qi], "dialects": which}),
                     );
                 }
             }
@@ -805,6 +845,7 @@ fn reference_pass(wl: &Workload, alt: bool) -> RefOut {
                 canon_display: canonicalise(&c.display),
                 canon_sql: canonicalise(&c.sql),
                 c,
+                dialects: r.as_ref().map(render_dialects).unwrap_or_default(),
                 relation: r,
                 probe_names: vec![],
             });
